@@ -807,7 +807,10 @@ class AirTouch4(pyairtouch.api.AirTouch):
         Opens the socket to communicate with the AirTouch and loads initial
         state related to the capabilities of the AirTouch system.
         """
-        self._state = _AirTouchState.CONNECTING
+        if self._state == _AirTouchState.CLOSED:
+            # A repeated call (e.g. a retry after an earlier call gave up) must
+            # not interrupt a handshake that is under way or already complete.
+            self._state = _AirTouchState.CONNECTING
         self._socket.subscribe_on_connection_changed(self._connection_changed)
         self._socket.subscribe_on_message_received(self._message_received)
         await self._socket.open_socket()
